@@ -268,6 +268,9 @@ pub const ACCEPTED_LUAU: &[&str] = &["const a = 1 local a = 2 a = 3", "const a =
 
 /// Lua 5.1 only (llex.c, read_long_string): `[[` inside a level-0 long string or comment is an error
 pub const REJECTED_LUA51: &[&str] = &["return [[a [[b]]", "--[[ c [[ d ]] return 1", "return [[ [[ ]]"];
+/// Lua 5.1 (lparser.c, funcargs): a `(` on another line than the expression it would call is "ambiguous syntax". Luau reports
+/// the same text as ambiguous too, but luaref's Luau grammar is lenient there, so only the Lua 5.1 side is asserted.
+pub const AMBIGUOUS_LUA51: &[&str] = &["f\n(1)", "local a = f\n(g)()", "a:b\n(1)", "return a.b:c\n\n(1)", "f{}\n(1)", "f\"s\"\n(1)"];
 pub const ACCEPTED_BOTH: &[&str] = &["return [=[a [[b]=]", "return [[a [=[b]]", "return [[a [ [b]]", "--[==[ c [[ d ]==] return 1"];
 
 pub const ACCEPTED: &[&str] = &["return ...", "local a = ... return function(...) return ... end", "local function f(a, ...) return select('#', ...) end"];
@@ -288,6 +291,11 @@ pub fn run_vectors() -> Vec<String> {
         }
         if super::parser::parse(src.as_bytes(), Mode::Luau).is_err() {
             failures.push(format!("`{}` must be accepted by the Luau grammar", src));
+        }
+    }
+    for src in AMBIGUOUS_LUA51 {
+        if super::parser::parse(src.as_bytes(), Mode::Lua51).is_ok() {
+            failures.push(format!("`{}` must be rejected by the Lua 5.1 grammar (ambiguous syntax)", src));
         }
     }
     for src in ACCEPTED_BOTH {
